@@ -42,6 +42,13 @@ def step (_ : Unit) (line : String) : Unit × String :=
         if t0 < 0 ∨ t0 > 2199023255552 ∨ t0ns < 0 ∨ t0ns > 999999999 ∨ mutk > 7 ∨ src.length > 255 ∨
            salt ≥ 18446744073709551616 then none
         pure "ok").getD "bad-op"
+    | ["realpair", t0, cid, addr, port, odcid] =>
+      (do
+        let t0 ← parseInt t0; let cid ← parseBytes cid; let addr ← addrTok addr; let _ ← portTok port
+        let _ ← parseBytes odcid
+        if t0 < 0 ∨ t0 > 2199023255552 then none
+        if (addr.length = 16 ∧ cid.length ≤ 243) ∨ (addr.length = 4 ∧ 12 ≤ cid.length ∧ cid.length ≤ 255) then pure "ok"
+        else none).getD "bad-op"
     | ["resetconc", key, ncid, ng, iters] =>
       (do
         let key ← parseBytes key; let ncid ← parseNat ncid; let ng ← parseNat ng; let iters ← parseNat iters
